@@ -350,3 +350,8 @@ PROPS['C18']['rules'] += [X.rule_pad_agreement]
 PROPS['C11']['rules'] += [X.rule_one_to_many_count]
 for _k, _v in rules_extra.RULE_TEXT.items():
     ALL_TEXT.setdefault(_k, ' '.join((_v or '').split()))
+
+# vacuity minima tolerate refactorings that merge or split obligations: they
+# only have to notice that the analysis lost sight of the code altogether
+for _p in PROPS.values():
+    _p['minima'] = {k: v // 2 for k, v in _p['minima'].items() if v // 2 >= 2}
